@@ -1035,5 +1035,5 @@ func runHistory(t *testing.T, rt *rapid.T, name string) {
 
 func TestSequentialAgainstModel(t *testing.T) {
 	name := t.Name()
-	hx.Check(t, 15000, 300000, 40, func(rt *rapid.T) { runHistory(t, rt, name) })
+	hx.Check(t, 15000, 2000000, 40, func(rt *rapid.T) { runHistory(t, rt, name) })
 }
